@@ -158,7 +158,7 @@ func racePass() {
 						res.Viol++
 					}
 					// goroutine leak: give stragglers a moment, then compare
-					for i := 0; i < 200 && runtime.NumGoroutine() > before; i++ {
+					for i := 0; i < 20000 && runtime.NumGoroutine() > before; i++ { // up to 20 s, left as soon as the count is back
 						time.Sleep(time.Millisecond)
 					}
 					if g := runtime.NumGoroutine(); g > before {
@@ -182,6 +182,9 @@ func racePass() {
 			res.Viol++
 			res.Messages = append(res.Messages, err.Error())
 		}
+	}
+	if res.Viol == 0 {
+		res.Class = "none"
 	}
 	out, _ := json.Marshal(res)
 	if err := os.WriteFile(os.Getenv("VERIF_RACE_RESULT"), out, 0o644); err != nil {
